@@ -80,8 +80,9 @@ def choice(R):
     pn, pcall = pc[0]
     purl = pcall.args[0] if pcall.args else None
     o, on = rd.origin(pn, purl)
-    ok = isinstance(o, ast.Call) and U(o.func) == 'self.websocket.proxies.get' and len(o.args) >= 1 \
-        and isinstance(o.args[0], ast.IfExp) and U(o.args[0].test) == 'self.websocket.is_secure' \
+    from .common import canon
+    ok = isinstance(o, ast.Call) and canon(R, g, on, o.func) == 'self.websocket.proxies.get' and len(o.args) >= 1 \
+        and isinstance(o.args[0], ast.IfExp) and canon(R, g, on, o.args[0].test) == 'self.websocket.is_secure' \
         and fold(R, o.args[0].body, g.ctx) == 'https' and fold(R, o.args[0].orelse, g.ctx) == 'http'
     R.ob('C19.choice', 'entry chosen by the target scheme', ok, 'proxy looked up with %s' % U(o), func=f, node=o)
     lits = {(t, p) for (t, p, _) in guards_of(g, pn)}
@@ -102,8 +103,9 @@ def choice(R):
     if okd:
         c = dc[0][1]
         cs = R.func(S + '._connect_sock')
-        okd = U(arg_of(c, cs, 'host')) == 'self.websocket.host' and U(arg_of(c, cs, 'port')) == 'self.websocket.port' \
-            and U(arg_of(c, cs, 'ssl')) == 'self.websocket.is_secure'
+        okd = canon(R, g, dc[0][0], arg_of(c, cs, 'host')) == 'self.websocket.host' \
+            and canon(R, g, dc[0][0], arg_of(c, cs, 'port')) == 'self.websocket.port' \
+            and canon(R, g, dc[0][0], arg_of(c, cs, 'ssl')) == 'self.websocket.is_secure'
     R.ob('C19.choice', 'direct arm connects to the target', okd, 'direct arm: %s' % [U(c_) for (_, c_) in dc], func=f,
          node=(dc[0][1] if dc else None))
     rets = [r for r in g.live_nodes() if r.kind == 'stmt' and isinstance(r.ast, ast.Return)]
@@ -189,7 +191,9 @@ def connect(R):
     need(len(br) == 1, '_connect_proxy: expected one proxy.build_request call')
     bn, bc = br[0]
     bf = R.func('proxy.build_request')
-    ok = U(arg_of(bc, bf, 'host', bound=False)) == 'self.websocket.host' and U(arg_of(bc, bf, 'port', bound=False)) == 'self.websocket.port'
+    from .common import canon
+    ok = canon(R, g, bn, arg_of(bc, bf, 'host', bound=False)) == 'self.websocket.host' \
+        and canon(R, g, bn, arg_of(bc, bf, 'port', bound=False)) == 'self.websocket.port'
     R.ob('C19.connect', 'CONNECT names the target host and port', ok, 'build_request(%s)' % ', '.join(U(a) for a in bc.args),
          func=f, node=bc)
     sends = ext_calls(R, g, {'socket.sendall', 'socket.send'})
